@@ -229,12 +229,16 @@ class Gen:
         self.leaf(out, "UINT16", n, "size")
         out += bytes(self.rng.randrange(256) for _ in range(n))
 
-    def command(self, cc=None, nsessions=None, decrypt=None, encrypt=None):
-        """returns (bytes, info) ; info: cc, rsp_enc (a session asks for response encryption)"""
+    def command(self, cc=None, nsessions=None, decrypt=None, encrypt=None, empty_area=None):
+        """returns (bytes, info) ; info: cc, rsp_enc (a session asks for response encryption);
+        empty_area: tag TPM_ST_SESSIONS with an authorization area of size 0 (present but empty)"""
         rng = self.rng
         cc = cc if cc is not None else rng.choice(self.ccs)
         if nsessions is None:
             nsessions = rng.choice([0, 0, 1, 1, 2, 3])
+        if empty_area is None:
+            empty_area = nsessions == 0 and rng.random() < 0.08
+        empty_area = bool(empty_area) and nsessions == 0
         self.faults = []
         body = bytearray()
         base = 10
@@ -247,7 +251,7 @@ class Gen:
             if (encrypt if encrypt is not None else rng.random() < 0.25):
                 a |= 0x40
             attrs.append(a)
-        if nsessions:
+        if nsessions or empty_area:
             area = bytearray()
             saved = self.faults
             self.faults = []
@@ -270,22 +274,25 @@ class Gen:
         b0 = len(body)
         self.faults += [(k, b0 + o, w, p, z) for (k, o, w, p, z) in pf]
         body += params
-        tag = 0x8002 if nsessions else 0x8001
+        tag = 0x8002 if (nsessions or empty_area) else 0x8001
         total = 10 + len(body)
         msg = tag.to_bytes(2, "big") + total.to_bytes(4, "big") + cc.to_bytes(4, "big") + bytes(body)
         faults = [("leaf", 0, 2, "TPMI_ST_COMMAND_TAG", tag), ("size", 2, 4, "UINT32", total), ("leaf", 6, 4, "TPM_CC", cc)]
         faults += [(k, 10 + o, w, p, z) for (k, o, w, p, z) in self.faults]
-        return msg, {"cc": cc, "rsp_enc": any(a & 0x40 for a in attrs), "nsessions": nsessions, "faults": faults}
+        return msg, {"cc": cc, "rsp_enc": any(a & 0x40 for a in attrs), "nsessions": nsessions, "empty_area": empty_area, "faults": faults}
 
-    def response(self, cc, enc=False, nsessions=None, rc=None):
+    def response(self, cc, enc=False, nsessions=None, rc=None, empty_area=None):
         rng = self.rng
         if rc is None:
             rc = 0 if rng.random() < 0.85 else rng.choice([0x101, 0x1C4, 0x9A2, 0x922, 0x084, 0x902])
         if nsessions is None:
             nsessions = rng.choice([0, 0, 1, 2]) if not enc else rng.choice([1, 2])
+        if empty_area is None:
+            empty_area = nsessions == 0 and not enc and rng.random() < 0.08
+        empty_area = bool(empty_area) and nsessions == 0 and not enc and rc == 0
         self.faults = []
         body = bytearray()
-        tag = 0x8002 if (nsessions and rc == 0) else 0x8001
+        tag = 0x8002 if ((nsessions or empty_area) and rc == 0) else 0x8001
         if rc == 0:
             self.gen_type(self.rsp_h[cc], body)
             params = bytearray()
@@ -318,7 +325,7 @@ class Gen:
         msg = tag.to_bytes(2, "big") + total.to_bytes(4, "big") + rc.to_bytes(4, "big") + bytes(body)
         faults = [("leaf", 0, 2, "TPM_ST", tag), ("size", 2, 4, "UINT32", total), ("leaf", 6, 4, "TPM_RC", rc)]
         faults += [(k, 10 + o, w, p, z) for (k, o, w, p, z) in self.faults]
-        return msg, {"cc": cc, "enc": enc, "rc": rc, "faults": faults}
+        return msg, {"cc": cc, "enc": enc, "rc": rc, "empty_area": empty_area, "faults": faults}
 
     def pair(self, cc=None):
         c, ci = self.command(cc)
